@@ -442,8 +442,10 @@ K_AUDIO = dict(name="K-core::audio", package="rustzx-core", features="full",
                bounded={"mixer_sample_composition": "master volume in {0, 0.25, 0.5, 1}, stubbed AY sample levels in {0, 0.125, 1.5, 3} per channel (symbolic float products did not finish); every source on/off and speaker/MIC combination"},
                assumptions=CORE_ASSUME + ["mixer_sample_composition stubs ZXAyChip::gen_sample (the AY sample value is C18's float path)"])
 K_AUDIO_SLOW = dict(name="K-core::audio-float", package="rustzx-core", features="full", tier="thorough",
-                    harnesses=["sample_count", "frame_position"], jobs=2, timeout=3000,
-                    functions={"sample_count": ["ZXMixer::sample_count_for_frame_fraction", "ZXMixer::samples_per_frame"],
+                    harnesses=["sample_index_range", "sample_index_floor", "frame_position"], jobs=3, timeout=5400,
+                    bounded={"sample_index_floor": "8 common sample rates (8000..192000 Hz), position symbolic"},
+                    functions={"sample_index_range": ["ZXMixer::sample_count_for_frame_fraction", "ZXMixer::samples_per_frame"],
+                               "sample_index_floor": ["ZXMixer::sample_count_for_frame_fraction"],
                                "frame_position": ["ZXController::frame_pos"]},
                     assumptions=CORE_ASSUME + ["f64 division/multiplication decided bit-precisely by CBMC (slow: minutes)"])
 
